@@ -8,6 +8,7 @@ import (
 	"bytes"
 	"context"
 	"encoding/binary"
+	"errors"
 	"fmt"
 	"go/ast"
 	"go/token"
@@ -237,6 +238,9 @@ func run(c *hc.Ctx) error {
 			cls := "err other:" + err.Error()
 			if strings.Contains(err.Error(), "invalid secret size") {
 				cls = "err secret-size"
+			} else if errors.Is(err, io.EOF) || errors.Is(err, io.ErrUnexpectedEOF) {
+				cls = "err short" // every candidate on the tape was rejected (by chance) and the tape ended
+				c.Count("tape.exhausted-by-chance")
 			}
 			add(hline, cls)
 			continue
